@@ -319,6 +319,11 @@ Proof.
   - destruct parses; [|exact HS]. nred. repeat split; intros; try assumption; try reflexivity; auto.
   - destruct (MAX_INV <=? ninv (nmem s)); [exact HS|].
     nred. repeat split; intros; try assumption; try reflexivity; auto.
+  - (* IssueInvoice: memory only, and nothing that a restart is promised to bring back *)
+    destruct (MAX_INV <=? iss_count (iss (nmem s))); [exact HS|].
+    destruct (iss (nmem s) h); [exact HS|].
+    destruct (0 <? a); [|exact HS].
+    nred. repeat split; intros; try assumption; try reflexivity; auto.
   - exact HS.
   - nred. repeat split; intros; try reflexivity; auto.
 Qed.
